@@ -1,12 +1,16 @@
 package hostile
 
 import (
+	"bytes"
 	"context"
 	"encoding/base64"
 	"encoding/hex"
 	"fmt"
 	"runtime/debug"
+	"runtime/pprof"
+	"strings"
 	"testing"
+	"time"
 
 	"github.com/ipfs/go-cid"
 	format "github.com/ipfs/go-ipld-format"
@@ -43,6 +47,8 @@ type c12Prog struct {
 	Chain   int     `json:"chain"`   // healthy chain length
 	Arb     Val     `json:"arb"`     // arbitrary shape value
 	Loader  int     `json:"loader"`  // 0 entry hash, 1 manifest
+	Conc    int     `json:"conc"`    // fetch concurrency of the loads (0 = default)
+	Extra   int     `json:"extra"`   // additional undecodable blocks named next to the hostile one
 }
 
 var entryPaths = []string{"v", "id", "key", "sig", "hash", "next", "refs", "clock", "clock.id", "clock.time", "payload", "identity", "identity.id", "identity.type", "identity.publicKey", "identity.signatures", "identity.signatures.id", "identity.signatures.publicKey", "next[0]", "refs[0]", "enc_links", "enc_links_nonce", "+extra"}
@@ -58,6 +64,8 @@ func genC12(t *rapid.T) c12Prog {
 		AsRef:  rapid.Bool().Draw(t, "asRef"),
 		Chain:  rapid.IntRange(2, 6).Draw(t, "chain"),
 		Loader: rapid.IntRange(0, 1).Draw(t, "loader"),
+		Conc:   rapid.SampledFrom([]int{0, 0, 1, 2, 3}).Draw(t, "conc"),
+		Extra:  rapid.SampledFrom([]int{0, 0, 1, 2, 3}).Draw(t, "extra"),
 	}
 	paths := entryPaths
 	if p.Shape == "entry-linkkey" {
@@ -241,6 +249,31 @@ func safely(tb ev.TB, what string, f func()) {
 		}
 	}()
 	f()
+}
+
+// mustReturn runs f (under recover) on its own goroutine and fails if it has not returned after 15 s while
+// the goroutine dump shows the fetcher parked - every block of the store answers immediately, so a load
+// that is still running then is stuck, not slow.
+func mustReturn(tb ev.TB, what string, f func()) {
+	done := make(chan any, 1)
+	go func() {
+		defer func() { done <- recover() }()
+		f()
+	}()
+	select {
+	case r := <-done:
+		if r != nil {
+			tb.Fatalf("%s panicked: %v", what, r)
+		}
+	case <-time.After(15 * time.Second):
+		var buf bytes.Buffer
+		_ = pprof.Lookup("goroutine").WriteTo(&buf, 2)
+		dump := buf.String()
+		if strings.Contains(dump, "processQueue") && (strings.Contains(dump, "semaphore.(*Weighted).Acquire") || strings.Contains(dump, "sync.(*Cond).Wait")) {
+			tb.Fatalf("%s did not return: the store answers every read immediately but the fetcher is parked\n%s", what, trimStack([]byte(dump)))
+		}
+		tb.Logf("inconclusive: %s still running after 15s without a parked fetcher", what)
+	}
 }
 
 func trimStack(b []byte) string {
@@ -438,6 +471,14 @@ func runC12(tb ev.TB, p c12Prog) ev.Result {
 		hc = cidOf(raw)
 	}
 	st.PutRaw(hc, raw)
+	// further undecodable blocks that the healthy log names next to the hostile one
+	var extras []cid.Cid
+	for i := 0; i < p.Extra; i++ {
+		junk := []byte{0xa1, 0x61, byte('a' + i), 0xff, 0xff}
+		jc := cidOf(junk)
+		st.PutRaw(jc, junk)
+		extras = append(extras, jc)
+	}
 
 	classes := []string{"shape-" + p.Shape}
 	node, gerr := st.API().Dag().Get(ctx, hc)
@@ -490,9 +531,9 @@ func runC12(tb ev.TB, p c12Prog) ev.Result {
 		var refs []cid.Cid
 		if i == 2+p.Pos%(p.Chain-1) || (i == p.Chain-1 && p.Pos >= p.Chain-3) {
 			if p.AsRef {
-				refs = append(refs, hc)
+				refs = append(append(refs, extras...), hc)
 			} else {
-				next = append(next, hc)
+				next = append(append([]cid.Cid{hc}, extras...), next...) // hostile links listed before the healthy one
 			}
 		} else if i >= 3 {
 			refs = append(refs, chain[i-3].GetHash())
@@ -522,16 +563,16 @@ func runC12(tb ev.TB, p c12Prog) ev.Result {
 	var lerr error
 	lo := &ipfslog.LogOptions{ID: "verif-log", IO: cborIO}
 	if p.Loader == 0 {
-		safely(tb, "NewFromEntryHash over a log containing the block", func() {
-			loaded, lerr = ipfslog.NewFromEntryHash(ctx, st.API(), world.Identity(0), head.GetHash(), lo, &ipfslog.FetchOptions{})
+		mustReturn(tb, "NewFromEntryHash over a log containing the block", func() {
+			loaded, lerr = ipfslog.NewFromEntryHash(ctx, st.API(), world.Identity(0), head.GetHash(), lo, &ipfslog.FetchOptions{Concurrency: p.Conc})
 		})
 	} else {
 		mc, err := cborIO.Write(ctx, st.API(), &iface.JSONLog{ID: "verif-log", Heads: []cid.Cid{head.GetHash()}}, nil)
 		if err != nil {
 			tb.Fatalf("harness: %v", err)
 		}
-		safely(tb, "NewFromMultihash over a log containing the block", func() {
-			loaded, lerr = ipfslog.NewFromMultihash(ctx, st.API(), world.Identity(0), mc, lo, &ipfslog.FetchOptions{})
+		mustReturn(tb, "NewFromMultihash over a log containing the block", func() {
+			loaded, lerr = ipfslog.NewFromMultihash(ctx, st.API(), world.Identity(0), mc, lo, &ipfslog.FetchOptions{Concurrency: p.Conc})
 		})
 	}
 	if lerr != nil {
